@@ -4,7 +4,7 @@
 # 2. applies the patch to /repo, runs the given quick checks, reverts.
 set -u
 D=$(readlink -f "$1"); shift
-WT=/tmp/wt-verify
+WT=${WT:-/tmp/wt-verify}
 if [ ! -d $WT ]; then git -C /repo worktree add -q --detach $WT HEAD; fi
 git -C $WT checkout -q --detach $(git -C /repo rev-parse HEAD) && git -C $WT checkout -q -- . 
 echo "== seed $D"
@@ -14,13 +14,12 @@ if ! git -C $WT apply $D/patch.diff; then echo "PATCH DOES NOT APPLY"; exit 3; f
 (cd $WT && PYTHONPATH=$WT PYTHONDONTWRITEBYTECODE=1 timeout 600 /venv/bin/python $D/demo.py >/tmp/demo_patched.out 2>&1); echo "demo patched exit=$?"
 tail -3 /tmp/demo_patched.out
 git -C $WT checkout -q -- .
-if [ -n "$(git -C /repo status --porcelain --untracked-files=no)" ]; then echo "/repo dirty, abort"; exit 4; fi
-git -C /repo apply $D/patch.diff || exit 3
+git -C $WT apply $D/patch.diff || exit 3
+OUT=/tmp/seedout-$$; mkdir -p $OUT
 for c in "$@"; do
-  out=$(cd /verif && ./check $c --tier quick 2>&1); rc=$?
+  out=$(cd /verif && VERIF_REPO=$WT VERIF_OUT_DIR=$OUT ./check $c --tier ${TIER:-quick} 2>&1); rc=$?
   echo "check $c exit=$rc :: $(echo "$out" | grep -E '^(VIOLATION|KNOWN|HARNESS|RESULT)' | head -4 | tr '\n' '|')"
   echo "$out" | grep -E 'fingerprint' | head -3
 done
-git -C /repo checkout -- .
-# evidence files were rewritten by the mutated runs; restore committed ones
-(cd /verif && git checkout -- evidence 2>/dev/null)
+git -C $WT checkout -q -- .
+rm -rf $OUT
